@@ -32,6 +32,22 @@ static int64_t floordiv(int64_t a, int64_t b) {
     return q;
 }
 
+static int cmp128(const void *a, const void *b) {
+    __int128 x = *(const __int128 *)a, y = *(const __int128 *)b;
+    return (x > y) - (x < y);
+}
+
+static void print_i128(__int128 v) {
+    char buf[48];
+    int n = 0, neg = v < 0;
+    unsigned __int128 u = neg ? (unsigned __int128)(-(v + 1)) + 1 : (unsigned __int128)v;
+    if (u == 0) buf[n++] = '0';
+    while (u) { buf[n++] = (char)('0' + (int)(u % 10)); u /= 10; }
+    if (neg) putchar('-');
+    while (n) putchar(buf[--n]);
+    putchar('\n');
+}
+
 static int cmp64(const void *a, const void *b) {
     int64_t x = *(const int64_t *)a, y = *(const int64_t *)b;
     return (x > y) - (x < y);
@@ -137,24 +153,26 @@ int main(int argc, char **argv) {
             } else {
                 if (vals[0] == 0 && vals[depth - 1] == 0) { printf("0\n"); continue; }
                 if (width < 2) { printf("zerodiv\n"); continue; }
+                /* total may be pinned at +-2^63 while a cell is of the other sign: the adjusted values then lie
+                   outside the 64-bit range (the library computes them as unbounded integers); keep them exact */
+                __int128 *adj = malloc(sizeof(__int128) * depth);
                 for (uint32_t i = 0; i < depth; i++) {
-                    /* total may be pinned at +-2^63 while a cell is of the other sign: 128-bit intermediates */
                     __int128 diff = (__int128)total - (__int128)vals[i];
                     __int128 w1 = (__int128)width - 1;
                     __int128 q = diff / w1;
                     if ((diff % w1 != 0) && (diff < 0)) q--;
-                    vals[i] = (int64_t)((__int128)vals[i] - q);
+                    adj[i] = (__int128)vals[i] - q;
                 }
-                qsort(vals, depth, sizeof(int64_t), cmp64);
-                int64_t r;
+                qsort(adj, depth, sizeof(__int128), cmp128);
+                __int128 r;
                 if (depth % 2 == 0) {
-                    /* the two middle values may each be close to -2^63: add them in 128 bits */
-                    __int128 s2 = (__int128)vals[depth / 2] + (__int128)vals[depth / 2 - 1];
+                    __int128 s2 = adj[depth / 2] + adj[depth / 2 - 1];
                     __int128 q2 = s2 / 2;
                     if ((s2 % 2 != 0) && (s2 < 0)) q2--;
-                    r = (int64_t)q2;
-                } else r = vals[depth / 2];
-                printf("%" PRId64 "\n", r);
+                    r = q2;
+                } else r = adj[depth / 2];
+                free(adj);
+                print_i128(r);
             }
         }
         return 0;
